@@ -45,7 +45,7 @@ ASSUMPTIONS = [
     "l1init = 0, l2init = 4 (8 for three steps), l1l2tol = 1: exact dyadic bracket values",
     "the builtin max() inside pymoto.routines is evaluated as an If-term (no fork per ordering)",
 ]
-ITEM_TIMEOUT = {"quick": 110, "thorough": 900}
+ITEM_TIMEOUT = {"quick": 240, "thorough": 900}
 
 
 def items(tier):
@@ -57,7 +57,7 @@ def items(tier):
                                                          "v" if move == "vector" else "s", tolx, "-posgrad" if pos else "",
                                                          "-sharedinit" if alias else "")
         out.append(dict(kind="oc", id=ident, layout=lay, steps=steps, bounds=bnd, maxvol=maxvol, move=move, tolx=tolx, pos=pos,
-                        alias=alias))
+                        alias=alias, **(dict(timeout=400 if tier == "quick" else 1500) if pos else {})))
     for lay in b["layouts"]:
         add(lay, bnd="scalar", maxvol="sym")
         add(lay, bnd="vector", maxvol="sym")
